@@ -1,307 +1,44 @@
 import Deb822Verif.Model.DebWrap
+import Deb822Verif.Lemmas.DebWrapEntry
+import Deb822Verif.Lemmas.DebWrapPara
+import Deb822Verif.Lemmas.DebWrapIdem
+import Deb822Verif.Lemmas.DebWrapDoc
+import Deb822Verif.Lemmas.DebWrapSpec
+import Deb822Verif.Lemmas.DebWrapReread
+import Deb822Verif.Spec.DocSDec
 /-!
 # C07 — wrap-and-sort reformatting never changes content, keeps comments, is idempotent
+
+The helper lemmas live in `Lemmas/DebWrap*.lean`; this file states the property's theorems.
 -/
 namespace Deb822Verif.Props.C07
 open Deb822Verif Deb Node
 
-/-- the VALUE token texts among a list of nodes -/
-def valuesOf (ns : List DNode) : List Str := (ns.filter (isTokOf .VALUE)).map tokTextOf
-def valuesOfToks (ts : List Tok) : List Str := (ts.filter fun t => t.1 == .VALUE).map (·.2)
-
-theorem valuesOf_append (a b : List DNode) : valuesOf (a ++ b) = valuesOf a ++ valuesOf b := by
-  simp [valuesOf]
-
-theorem valuesOf_map_tk (ts : List Tok) : valuesOf (ts.map tk) = valuesOfToks ts := by
-  induction ts with
-  | nil => rfl
-  | cons t ts ih =>
-    simp only [List.map_cons, valuesOf, valuesOfToks, List.filter_cons, isTokOf] at ih ⊢
-    by_cases h : t.1 = .VALUE <;> simp [h, tokTextOf, ih]
-
-theorem valuesOfToks_strip (ts : List Tok) : valuesOfToks (rbStrip ts) = valuesOfToks ts := by
-  unfold rbStrip
-  induction ts with
-  | nil => rfl
-  | cons t ts ih =>
-    simp only [List.dropWhile_cons]
-    split
-    · rename_i h
-      have hv : (t.1 == Kind.VALUE) = false := by
-        simp only [Bool.or_eq_true, beq_iff_eq] at h
-        rcases h with h | h <;> simp [h]
-      rw [ih]
-      simp [valuesOfToks, List.filter_cons, hv]
-    · rfl
-
-theorem go_values (indentation : Nat) (ts : List Tok) (lastNl : Bool) :
-    valuesOf (rbGo indentation ts lastNl).1 = valuesOfToks ts := by
-  induction ts generalizing lastNl with
-  | nil => simp [rbGo, valuesOf, valuesOfToks]
-  | cons t ts ih =>
-    simp only [rbGo, valuesOf_append, ih]
-    have h1 : valuesOf (if lastNl = true then [Node.tok Kind.INDENT (List.replicate indentation ' ')] else []) = [] := by
-      split <;> simp [valuesOf, isTokOf]
-    rw [h1]
-    simp only [valuesOf, valuesOfToks, List.filter_cons, isTokOf, List.nil_append]
-    by_cases h : t.1 = .VALUE <;> simp [h, tokTextOf]
-
-theorem valuesOf_close (b : Bool) : valuesOf (rbClose b) = [] := by
-  cases b <;> simp [rbClose, valuesOf, isTokOf]
-
 /-- `rebuild_value` keeps exactly the VALUE tokens of its input, in order: re-indentation, the
     one-liner / multi-line layout choice and the leading newline touch nothing else -/
 theorem C07_rebuild_values (ts : List Tok) (keyLen ind : Nat) (imm : Bool) (mx : Option Nat) :
-    valuesOf (rebuildValue ts keyLen ind imm mx) = valuesOfToks ts := by
-  unfold rebuildValue
-  split
-  · rw [valuesOf_append, valuesOf_map_tk]; simp [valuesOf, isTokOf]
-  · split
-    · rw [List.cons_append, show ∀ x : List DNode, valuesOf (Node.tok Kind.NEWLINE ['\n'] :: x) = valuesOf x from
-        fun x => by simp [valuesOf, isTokOf]]
-      rw [valuesOf_append, go_values, valuesOf_close, valuesOfToks_strip]; simp
-    · rw [List.cons_append, show ∀ x : List DNode, valuesOf (Node.tok Kind.WHITESPACE [' '] :: x) = valuesOf x from
-        fun x => by simp [valuesOf, isTokOf]]
-      rw [valuesOf_append, go_values, valuesOf_close, valuesOfToks_strip]; simp
-
-/-- every INDENT token `rebuild_value` emits is exactly `ind` spaces -/
-theorem go_indents (indentation : Nat) (ts : List Tok) (lastNl : Bool)
-    (h : ∀ t ∈ ts, t.1 ≠ .INDENT) :
-    ∀ n ∈ (rbGo indentation ts lastNl).1, n.kind = .INDENT →
-      n = Node.tok .INDENT (List.replicate indentation ' ') := by
-  induction ts generalizing lastNl with
-  | nil => simp [rbGo]
-  | cons t ts ih =>
-    intro n hn hk
-    simp only [rbGo, List.mem_append, List.mem_cons, List.not_mem_nil, or_false] at hn
-    rcases hn with (hn | hn) | hn
-    · split at hn <;> simp_all
-    · subst hn; exact absurd hk (by simpa [Node.kind] using h t (by simp))
-    · exact ih _ (fun x hx => h x (by simp [hx])) n hn hk
-
-theorem close_no_indent (b : Bool) : ∀ n ∈ rbClose b, n.kind ≠ .INDENT := by
-  cases b <;> simp [rbClose, Node.kind]
+    valuesOf (rebuildValue ts keyLen ind imm mx) = valuesOfToks ts :=
+  rebuildValue_values ts keyLen ind imm mx
 
 /-- continuation lines are indented by exactly the requested width (multi-line layout) -/
 theorem C07_rebuild_indent (ts : List Tok) (keyLen ind : Nat) (imm : Bool)
     (h : ∀ t ∈ ts, t.1 ≠ .INDENT) :
     ∀ n ∈ rebuildValue ts keyLen ind imm none, n.kind = .INDENT →
-      n = Node.tok .INDENT (List.replicate ind ' ') := by
-  intro n hn hk
-  have hs : ∀ t ∈ rbStrip ts, t.1 ≠ .INDENT := fun t ht => h t ((List.dropWhile_sublist _).subset ht)
-  unfold rebuildValue at hn
-  simp only [rbFits, Bool.false_and, Bool.false_eq_true, ↓reduceIte] at hn
-  split at hn
-  all_goals
-    simp only [List.cons_append, List.mem_cons, List.mem_append] at hn
-    rcases hn with hn | hn | hn
-    · subst hn; simp [Node.kind] at hk
-    · exact go_indents ind _ _ hs n hn hk
-    · exact absurd hk (close_no_indent _ n hn)
+      n = Node.tok .INDENT (List.replicate ind ' ') :=
+  rebuildValue_indent ts keyLen ind imm h
 
-/-! ### entry level: without a formatter the key and the value read back unchanged -/
-
-theorem allTokens_eq {cs : List DNode} {ts : List Tok} (h : allTokens cs = some ts) : cs = ts.map tk := by
-  induction cs generalizing ts with
-  | nil => simp [allTokens] at h; subst h; rfl
-  | cons c cs ih =>
-    cases c with
-    | tok k t =>
-      simp only [allTokens, Option.map_eq_some_iff] at h
-      obtain ⟨ts', h1, h2⟩ := h
-      subst h2
-      simp [ih h1]
-    | node k cs' => simp [allTokens] at h
-
-theorem filter_dropTrailing (f q : DNode → Bool) (l : List DNode) (h : ∀ c, q c = true → f c = false) :
-    (dropTrailing q l).filter f = l.filter f := by
-  unfold dropTrailing
-  have hl : l = (l.reverse.dropWhile q).reverse ++ (l.reverse.takeWhile q).reverse := by
-    have := List.takeWhile_append_dropWhile (p := q) (l := l.reverse)
-    have h2 := congrArg List.reverse this
-    simp only [List.reverse_append, List.reverse_reverse] at h2
-    exact h2.symm
-  conv => rhs; rw [hl]
-  rw [List.filter_append]
-  have : (l.reverse.takeWhile q).reverse.filter f = [] := by
-    apply List.filter_eq_nil_iff.2
-    intro c hc
-    have hc' : c ∈ l.reverse.takeWhile q := by simpa using hc
-    have hall := List.all_takeWhile (p := q) (l := l.reverse)
-    have := List.all_eq_true.1 hall c hc'
-    simp [h c this]
-  rw [this, List.append_nil]
-
-theorem valuesOf_content (cs : List DNode) : valuesOf (ewContent cs) = valuesOf cs := by
-  unfold valuesOf ewContent
-  rw [filter_dropTrailing]
-  · rw [List.filter_filter]
-    congr 1
-    apply List.filter_congr
-    intro c _
-    cases c with
-    | tok k t => by_cases h : k = .VALUE <;> simp [isTokOf, contentKinds, Node.kind, h]
-    | node k cs' => simp [isTokOf]
-  · intro c hc
-    cases c with
-    | tok k t =>
-      simp only [Node.kind, Bool.or_eq_true, beq_iff_eq] at hc
-      rcases hc with hc | hc <;> simp [isTokOf, hc]
-    | node k cs' => simp [isTokOf]
-
-theorem heads_values (cs : List DNode) : valuesOf (cs.filterMap headOf) = [] := by
-  induction cs with
-  | nil => rfl
-  | cons c cs ih =>
-    simp only [List.filterMap_cons]
-    cases hh : headOf c with
-    | none => simpa using ih
-    | some x =>
-      have : isTokOf .VALUE x = false := by
-        unfold headOf at hh
-        split at hh <;> simp at hh <;> (subst hh; simp [isTokOf])
-      simp only [valuesOf, List.filter_cons, this] at ih ⊢
-      simpa using ih
-
-theorem heads_key (cs : List DNode) :
-    (cs.filterMap headOf).find? (isTokOf .KEY) = cs.find? (isTokOf .KEY) := by
-  induction cs with
-  | nil => rfl
-  | cons c cs ih =>
-    simp only [List.filterMap_cons, List.find?_cons]
-    cases c with
-    | tok k t =>
-      by_cases hk : k = .KEY
-      · subst hk; simp [headOf, isTokOf]
-      · by_cases hc : k = .COLON
-        · subst hc
-          have e : (Kind.COLON == Kind.KEY) = false := rfl
-          simp [headOf, isTokOf, ih, e]
-        · have : headOf (Node.tok k t) = none := by
-            unfold headOf; split <;> simp_all
-          have e : (k == Kind.KEY) = false := by simp [hk]
-          simp [this, isTokOf, e, ih]
-    | node k cs' =>
-      by_cases hc : k = .COLON
-      · subst hc; simp [headOf, isTokOf, ih]
-      · have : headOf (Node.node k cs') = none := by
-          unfold headOf; split <;> simp_all
-        simp [this, isTokOf, ih]
-
-theorem go_no_key (ind : Nat) (ts : List Tok) (b : Bool) (h : ∀ t ∈ ts, t.1 ≠ .KEY) :
-    (rbGo ind ts b).1.find? (isTokOf .KEY) = none := by
-  induction ts generalizing b with
-  | nil => simp [rbGo]
-  | cons t ts ih =>
-    have ht : t.1 ≠ .KEY := h t (by simp)
-    simp only [rbGo, List.find?_append]
-    have h1 : (if b = true then [Node.tok Kind.INDENT (List.replicate ind ' ')] else []).find? (isTokOf .KEY) = none := by
-      split <;> simp [isTokOf]
-    simp [h1, isTokOf, ht, ih _ (fun x hx => h x (by simp [hx]))]
-
+/-- the rebuilt value never introduces a KEY token -/
 theorem rebuild_no_key (ts : List Tok) (kl ind : Nat) (imm : Bool) (mx : Option Nat)
-    (h : ∀ t ∈ ts, t.1 ≠ .KEY) : (rebuildValue ts kl ind imm mx).find? (isTokOf .KEY) = none := by
-  have hs : ∀ t ∈ rbStrip ts, t.1 ≠ .KEY := fun t ht => h t ((List.dropWhile_sublist _).subset ht)
-  have hc : ∀ b, (rbClose b).find? (isTokOf .KEY) = none := by
-    intro b; cases b <;> simp [rbClose, isTokOf]
-  unfold rebuildValue
-  split
-  · simp only [List.find?_append]
-    have : (ts.map tk).find? (isTokOf .KEY) = none := by
-      apply List.find?_eq_none.2
-      intro x hx
-      simp only [List.mem_map] at hx
-      obtain ⟨t, ht, rfl⟩ := hx
-      simp [isTokOf, h t ht]
-    simp [this, isTokOf]
-  · split <;> simp [List.find?_cons, List.find?_append, isTokOf, go_no_key _ _ _ hs, hc]
+    (h : ∀ t ∈ ts, t.1 ≠ .KEY) : (rebuildValue ts kl ind imm mx).find? (isTokOf .KEY) = none :=
+  rebuildValue_no_key ts kl ind imm mx h
 
 /-- **entry level, no formatter**: whatever the indentation, empty-first-line setting and width
     limit, the reformatted entry has the same key and exactly the same value lines -/
 theorem C07_entry_content (cfg : WrapCfg) (e e' : DNode) (h : entryWrap cfg none e = some e') :
-    entryKey e' = entryKey e ∧ entryValue e' = entryValue e := by
-  unfold entryWrap at h
-  split at h
-  · simp at h
-  · split at h
-    · simp at h
-    · split at h
-      · simp at h
-      · rename_i ts hts
-        simp only [Option.some.injEq] at h
-        subst h
-        simp only [ewTokens] at hts
-        have hcontent := allTokens_eq hts
-        have hvals := valuesOf_content e.children
-        have hnokey : ∀ t ∈ ts, t.1 ≠ .KEY := by
-          intro t ht hk
-          have hm : tk t ∈ ts.map tk := List.mem_map_of_mem ht
-          rw [← hcontent] at hm
-          have h1 := (List.dropWhile_sublist _).subset (List.mem_reverse.1 (by simpa [ewContent, dropTrailing] using hm))
-          have h2 := (List.mem_filter.1 (List.mem_reverse.1 h1)).2
-          simp [contentKinds, Node.kind, hk] at h2
-        constructor
-        · simp only [entryKey, Node.children, List.find?_append, heads_key,
-            rebuild_no_key _ _ _ _ _ hnokey, Option.or_none]
-        · simp only [entryValue, Node.children]
-          have : ∀ l : List DNode, (l.filter (isTokOf .VALUE)).map tokTextOf = valuesOf l := fun _ => rfl
-          rw [this, this, valuesOf_append, heads_values, C07_rebuild_values, List.nil_append,
-            ← valuesOf_map_tk, ← hcontent]
-          exact congrArg _ hvals
-
-end Deb822Verif.Props.C07
-
-namespace Deb822Verif.Props.C07
-open Deb822Verif Deb Node
+    entryKey e' = entryKey e ∧ entryValue e' = entryValue e :=
+  entryWrap_content cfg e e' h
 
 /-! ### paragraph level: every field kept, in the original or the requested order -/
-
-def isEntryNode (c : DNode) : Bool := c.isNode && c.kind == .ENTRY
-def isTriviaNode (c : DNode) : Bool := c.kind == .ERROR || c.kind == .COMMENT
-
-/-- (key, value) of an entry, when it has a key -/
-def kv (e : DNode) : Option (Str × Str) := (entryKey e).map fun k => (k, entryValue e)
-
-theorem groupBy_units (cs cur : List DNode) :
-    (groupBy isEntryNode isTriviaNode cs cur).1.map (·.2) = cs.filter isEntryNode := by
-  induction cs generalizing cur with
-  | nil => simp [groupBy]
-  | cons c cs ih =>
-    simp only [groupBy]
-    by_cases h : isEntryNode c = true
-    · simp [h, ih]
-    · have h' : isEntryNode c = false := by simpa using h
-      simp only [h', Bool.false_eq_true, ↓reduceIte, List.filter_cons]
-      split <;> exact ih _
-
-theorem mapM'_map {α β} (f : α → Option β) (l : List α) (r : List β) (h : mapM' f l = some r) :
-    l.map f = r.map some := by
-  induction l generalizing r with
-  | nil => simp [mapM'] at h; subst h; rfl
-  | cons a as ih =>
-    simp only [mapM'] at h
-    cases ha : f a with
-    | none => simp [ha] at h
-    | some b =>
-      cases hs : mapM' f as with
-      | none => simp [ha, hs] at h
-      | some bs =>
-        simp [ha, hs] at h; subst h
-        simp [ha, ih bs hs]
-
-theorem entryWrap_isEntry (cfg fmt e e') (h : entryWrap cfg fmt e = some e') : isEntryNode e' = true := by
-  unfold entryWrap at h
-  repeat' split at h
-  all_goals first
-    | (simp at h; done)
-    | (simp at h; subst h; simp [isEntryNode, Node.isNode, Node.kind])
-
-theorem withNewlines_no_entry (ts : List Tok) : (withNewlines ts).filter isEntryNode = [] := by
-  induction ts with
-  | nil => rfl
-  | cons t ts ih =>
-    simp only [withNewlines, List.filter_append, ih, List.append_nil]
-    split <;> simp [isEntryNode, Node.isNode]
 
 /-- the fields of a reformatted paragraph, without a value formatter: exactly the fields of the
     original — in the original order when no order is requested, otherwise a permutation of them
@@ -314,94 +51,421 @@ theorem C07_para_fields (cfg : WrapCfg) (le : Option (DNode → DNode → Bool))
          | none => es'.map kv = (p.children.filter isEntryNode).map kv
          | some f => ∃ ws : List (List DNode × DNode),
              ws.map (fun x => kv x.2) = (p.children.filter isEntryNode).map kv
-             ∧ es' = (ws.mergeSort fun a b => f a.2 b.2).map (·.2)) := by
-  unfold paragraphWrap at h
-  simp only at h
-  split at h
-  · simp at h
-  · rename_i wrapped hw
-    split at h
-    · rename_i groups trailing hg ht
-      simp only [Option.some.injEq] at h
-      subst h
-      -- the wrapped entries keep key and value
-      have hmap := mapM'_map _ _ _ hw
-      have hkv : wrapped.map (fun x => kv x.2) =
-          (p.children.filter isEntryNode).map kv := by
-        rw [← groupBy_units p.children []]
-        have : ∀ (l : List (List DNode × DNode)) (r : List (List DNode × DNode)),
-            l.map (fun pe => match entryWrap cfg none pe.2 with
-              | some e' => some (pe.1, e') | none => none) = r.map some →
-            r.map (fun x => kv x.2) = (l.map (·.2)).map kv := by
-          intro l
-          induction l with
-          | nil => intro r hr; cases r <;> simp_all
-          | cons a l ih =>
-            intro r hr
-            cases r with
-            | nil => simp at hr
-            | cons b r =>
-              simp only [List.map_cons, List.cons.injEq] at hr ⊢
-              obtain ⟨h1, h2⟩ := hr
-              refine ⟨?_, ih r h2⟩
-              split at h1
-              · rename_i e' he
-                simp at h1; subst h1
-                have := C07_entry_content cfg a.2 e' he
-                simp [kv, this.1, this.2]
-              · simp at h1
-        exact this _ _ hmap
-      -- the entry nodes of the result are the (sorted) wrapped entries
-      have hres : ∀ (es : List (List DNode × DNode)) (gs : List (List DNode)),
-          (∀ x ∈ es, isEntryNode x.2 = true) →
-          mapM' (fun (pe : List DNode × DNode) =>
-            match allTokens pe.1 with
-            | some pre => some (withNewlines pre ++ [pe.2])
-            | none => none) es = some gs →
-          gs.flatten.filter isEntryNode = es.map (·.2) := by
-        intro es
-        induction es with
-        | nil => intro gs _ hgs; simp [mapM'] at hgs; subst hgs; rfl
-        | cons a es ih =>
-          intro gs hall hgs
-          simp only [mapM'] at hgs
-          split at hgs
-          · rename_i b bs hb hbs
-            simp at hgs; subst hgs
-            split at hb
-            · rename_i pre hpre
-              simp at hb; subst hb
-              simp only [List.flatten_cons, List.filter_append, withNewlines_no_entry,
-                List.nil_append, List.filter_cons, hall a (by simp), ↓reduceIte, List.filter_nil,
-                List.map_cons, List.cons_append, List.cons.injEq, true_and]
-              exact ih bs (fun x hx => hall x (by simp [hx])) hbs
-            · simp at hb
-          · simp at hgs
-      have hwall : ∀ x ∈ wrapped, isEntryNode x.2 = true := by
-        intro x hx
-        have hx' : some x ∈ wrapped.map some := List.mem_map_of_mem hx
-        rw [← hmap] at hx'
-        simp only [List.mem_map] at hx'
-        obtain ⟨pe, _, hpe⟩ := hx'
-        split at hpe
-        · rename_i e' he
-          simp at hpe; subst hpe
-          exact entryWrap_isEntry _ _ _ _ he
-        · simp at hpe
-      refine ⟨_, rfl, ?_⟩
-      have hchildren : ∀ (k : Kind) (cs : List DNode), (Node.node k cs).children = cs := fun _ _ => rfl
-      simp only [hchildren, List.filter_append, withNewlines_no_entry, List.append_nil]
-      cases le with
-      | none =>
-        simp only at hg ⊢
-        rw [hres wrapped groups hwall hg]
-        simpa [Function.comp_def] using hkv
-      | some f =>
-        simp only at hg ⊢
-        refine ⟨wrapped, hkv, ?_⟩
-        apply hres _ _ _ hg
-        intro x hx
-        exact hwall x ((List.mergeSort_perm wrapped _).subset hx)
-    · simp at h
+             ∧ es' = (ws.mergeSort fun a b => f a.2 b.2).map (·.2)) :=
+  paragraphWrap_fields cfg le p p' h
+
+/-! ### examples used below: a comparator that is a total preorder, concrete inputs -/
+
+/-- order by a numeric rank (a total preorder whatever the rank is) -/
+def rankOrder (r : DNode → Nat) : DNode → DNode → Bool := fun a b => decide (r a ≤ r b)
+
+theorem rankOrder_ok (r : DNode → Nat) : OrderOK (some (rankOrder r)) := by
+  intro f hf
+  simp only [Option.some.injEq] at hf
+  subst hf
+  refine ⟨?_, ?_⟩
+  · intro a b c h1 h2
+    simp only [rankOrder, decide_eq_true_eq] at h1 h2 ⊢
+    exact Nat.le_trans h1 h2
+  · intro a b
+    simp only [rankOrder, Bool.or_eq_true, decide_eq_true_eq]
+    exact Nat.le_total _ _
+
+theorem orderOK_none : OrderOK none := by intro f hf; cases hf
+
+/-- fields by the first character of their name -/
+def exKeyRank (e : DNode) : Nat := match entryKey e with | some (c :: _) => c.toNat | _ => 0
+/-- paragraphs by the first character of their `Package` value -/
+def exPkgRank (p : DNode) : Nat := match Deb.get p "Package".toList with | some (c :: _) => c.toNat | _ => 0
+
+def exCfg : WrapCfg := { indentation := .spaces 4, immediateEmptyLine := true, maxLineLengthOneLiner := some 20 }
+def exRoot : DNode :=
+  (parse "# top\n\nPackage: b\nDepends: x,\n  y\n# c\nArch: any\n\n\n# mid\nPackage: a".toList).tree
+def exPara : DNode := (paragraphs exRoot).headD (.node .PARAGRAPH [])
+def exEntry : DNode := ((entries exPara).drop 1).headD (.node .ENTRY [])
+
+/-! ### (a) paragraph level: comments and fields -/
+
+/-- **paragraph level, no formatter, every setting and comparator.** Let `ws` be the fields of the
+    input in file order, each with the comment (and error) tokens in front of it, each field
+    reformatted (`entryWrap`: same name, same value lines). Then
+    * the result consists of exactly these groups, stably sorted by the comparator applied to the
+      reformatted fields (file order when there is none), every comment followed by its own line
+      terminator and standing in front of the same field, then the trailing comments (`paraOut`);
+    * grouping the result again returns these groups: each comment stays attached to its field;
+    * the comment texts of the result are a permutation of the input's — the same sequence when
+      no order is requested;
+    * `items` of the result are the `(name, value)` pairs of the sorted groups, a permutation of
+      the input's items — the same list when no order is requested. -/
+theorem C07_para_comments (cfg : WrapCfg) (le : Option (DNode → DNode → Bool)) (p p' : DNode)
+    (h : paragraphWrap cfg le none p = some p') :
+    ∃ ws : List (List DNode × DNode),
+      Pointwise (fun g w => w.1 = g.1 ∧ entryWrap cfg none g.2 = some w.2
+          ∧ entryKey w.2 = entryKey g.2 ∧ entryValue w.2 = entryValue g.2
+          ∧ commentTexts w.2.children = commentTexts g.2.children) (paraGroups p).1 ws
+      ∧ p' = .node .PARAGRAPH (paraOut (sortBy le ws) (paraGroups p).2)
+      ∧ paraGroups p' = (sortBy le ws, (paraGroups p).2)
+      ∧ commentTexts p'.children = groupsComments (sortBy le ws) (paraGroups p).2
+      ∧ commentTexts p.children = groupsComments ws (paraGroups p).2
+      ∧ (commentTexts p'.children).Perm (commentTexts p.children)
+      ∧ (le = none → commentTexts p'.children = commentTexts p.children)
+      ∧ items p' = (sortBy le ws).filterMap (fun w => kv w.2)
+      ∧ items p = ws.filterMap (fun w => kv w.2)
+      ∧ (items p').Perm (items p)
+      ∧ (le = none → items p' = items p) := by
+  obtain ⟨ws, hpw, hpre, hent, htr, rfl⟩ := paragraphWrap_spec cfg le none p p' h
+  have hpre' : ∀ w ∈ sortBy le ws, ∀ c ∈ w.1, isTrivTok c = true :=
+    fun w hw => hpre w ((mem_sortBy le ws w).1 hw)
+  have hent' : ∀ w ∈ sortBy le ws, isEntryNode w.2 = true :=
+    fun w hw => hent w ((mem_sortBy le ws w).1 hw)
+  have hpw2 : Pointwise (fun g w => w.1 = g.1 ∧ entryWrap cfg none g.2 = some w.2
+      ∧ entryKey w.2 = entryKey g.2 ∧ entryValue w.2 = entryValue g.2
+      ∧ commentTexts w.2.children = commentTexts g.2.children) (paraGroups p).1 ws :=
+    Pointwise.imp (fun g w hgw => ⟨hgw.1, hgw.2, (entryWrap_content cfg g.2 w.2 hgw.2).1,
+      (entryWrap_content cfg g.2 w.2 hgw.2).2, entryWrap_comments cfg g.2 w.2 hgw.2⟩) hpw
+  have hg : paraGroups (.node .PARAGRAPH (paraOut (sortBy le ws) (paraGroups p).2))
+      = (sortBy le ws, (paraGroups p).2) := groupBy_paraOut _ _ hpre' hent' htr
+  have hc' : commentTexts (paraOut (sortBy le ws) (paraGroups p).2)
+      = groupsComments (sortBy le ws) (paraGroups p).2 :=
+    commentTexts_paraOut _ _ fun w hw => isEntryNode_isNode w.2 (hent' w hw)
+  have hc : commentTexts p.children = groupsComments ws (paraGroups p).2 := by
+    have := groupBy_comments p.children []
+    rw [show commentTexts ([] : List DNode) = [] from rfl, List.nil_append] at this
+    rw [← this]
+    exact (groupsComments_congr (paraGroups p).1 ws _ (Pointwise.imp (fun _ _ h => h.1) hpw)).symm
+  have hi' : items (.node .PARAGRAPH (paraOut (sortBy le ws) (paraGroups p).2))
+      = (sortBy le ws).filterMap (fun w => kv w.2) := by
+    have h1 : entries (.node .PARAGRAPH (paraOut (sortBy le ws) (paraGroups p).2))
+        = (sortBy le ws).map (·.2) := by
+      have := groupBy_units (paraOut (sortBy le ws) (paraGroups p).2) []
+      rw [show groupBy isEntryNode isTriviaNode (paraOut (sortBy le ws) (paraGroups p).2) [] = _ from hg] at this
+      exact this.symm
+    show (entries _).filterMap kv = _
+    rw [h1, List.filterMap_map]; rfl
+  have hi : items p = ws.filterMap (fun w => kv w.2) := by
+    show (entries p).filterMap kv = _
+    have h1 : entries p = (paraGroups p).1.map (·.2) := (groupBy_units p.children []).symm
+    have h2 : (paraGroups p).1.map (fun g => kv g.2) = ws.map (fun w => kv w.2) :=
+      Pointwise.map_eq _ _ (fun g w hgw => by simp only [kv, hgw.2.2.1, hgw.2.2.2.1]) hpw2
+    rw [h1, List.filterMap_map]
+    have e1 : List.filterMap (kv ∘ fun x : List DNode × DNode => x.2) (paraGroups p).1
+        = ((paraGroups p).1.map (fun g => kv g.2)).filterMap id := by
+      rw [List.filterMap_map]; rfl
+    have e2 : ws.filterMap (fun w => kv w.2) = (ws.map (fun w => kv w.2)).filterMap id := by
+      rw [List.filterMap_map]; rfl
+    rw [e1, e2, h2]
+  refine ⟨ws, hpw2, rfl, hg, hc', hc, ?_, ?_, hi', hi, ?_, ?_⟩
+  · show (commentTexts (paraOut _ _)).Perm _
+    rw [hc', hc]
+    exact groupsComments_perm _ _ _ (sortBy_perm le ws)
+  · intro hle; subst hle
+    show commentTexts (paraOut _ _) = _
+    rw [hc', hc]; rfl
+  · rw [hi', hi]
+    exact List.Perm.filterMap _ (sortBy_perm le ws)
+  · intro hle; subst hle
+    rw [hi', hi]; rfl
+
+/-- the hypothesis holds on a paragraph with a comment between two fields, sorted by name: the
+    comment travels with `Arch` -/
+example : ∃ p', paragraphWrap exCfg (some (rankOrder exKeyRank)) none exPara = some p' := by
+  have h : (paragraphWrap exCfg none none exPara).isSome = true := by decide +kernel
+  obtain ⟨p0, hp0⟩ := Option.isSome_iff_exists.1 h
+  exact paragraphWrap_any_order exCfg none _ none exPara p0 hp0
+
+/-- the same paragraph in file order (`List.mergeSort` does not reduce in the kernel, so the sorted
+    text is not shown here; the harness prints it: `"# c\nArch: any\nDepends:\n    x,\n    y\nPackage: b\n"`) -/
+example : (paragraphWrap exCfg none none exPara).map Node.text
+    = some "Package: b\nDepends:\n    x,\n    y\n# c\nArch: any\n".toList := by decide +kernel
+
+/-! ### (b) document level -/
+
+/-- **document level, no formatter, every setting and both comparators.** Let `ws` be the
+    paragraphs of the input in file order, each with the top-level comment (and error) tokens in
+    front of it — whether they stood directly under the root or inside blank-line nodes —, each
+    paragraph reformatted by `paragraphWrap`. Then
+    * the paragraphs of the result are the stable sort of the reformatted paragraphs by the
+      paragraph comparator (file order when there is none); `docItems` of the result lists their
+      items, and the items of every reformatted paragraph are a permutation of (equal to, without
+      entry order) the items of the paragraph it came from;
+    * grouping the result again gives the same groups: every top-level comment stays in front of
+      the same paragraph, the comments after the last paragraph stay last;
+    * the top-level comment texts are a permutation of the input's (equal without paragraph order). -/
+theorem C07_doc_content (cfg : WrapCfg) (ele ple : Option (DNode → DNode → Bool)) (root root' : DNode)
+    (h : deb822Wrap ple (some (paragraphWrap cfg ele none)) root = some root') :
+    ∃ ws : List (List DNode × DNode),
+      Pointwise (fun g w => w.1 = g.1 ∧ paragraphWrap cfg ele none g.2 = some w.2
+          ∧ (items w.2).Perm (items g.2) ∧ (ele = none → items w.2 = items g.2)) (rootGroups root).1 ws
+      ∧ (rootGroups root).1.map (·.2) = paragraphs root
+      ∧ root' = .node .ROOT (docOut (sortBy ple ws) (rootGroups root).2)
+      ∧ rootGroups root' = (sortBy ple ws, (rootGroups root).2)
+      ∧ paragraphs root' = (sortBy ple ws).map (·.2)
+      ∧ docItems root' = (sortBy ple ws).map (fun w => items w.2)
+      ∧ (topCommentTexts root').Perm (topCommentTexts root)
+      ∧ (ple = none → topCommentTexts root' = topCommentTexts root) := by
+  obtain ⟨ws, hpw, hpre, htr, rfl⟩ := deb822Wrap_spec ple _ root root' h
+  have hpre' : ∀ w ∈ sortBy ple ws, ∀ c ∈ w.1, isTrivTok c = true :=
+    fun w hw => hpre w ((mem_sortBy ple ws w).1 hw)
+  have hpara : ∀ w ∈ ws, isParaNode w.2 = true := by
+    intro w hw
+    obtain ⟨g, _, hr⟩ := Pointwise.mem_right hpw w hw
+    obtain ⟨_, _, _, _, _, he⟩ := paragraphWrap_spec cfg ele none g.2 w.2 hr.2
+    rw [he]; rfl
+  have hpara' : ∀ w ∈ sortBy ple ws, isParaNode w.2 = true :=
+    fun w hw => hpara w ((mem_sortBy ple ws w).1 hw)
+  have hg : rootGroups (.node .ROOT (docOut (sortBy ple ws) (rootGroups root).2))
+      = (sortBy ple ws, (rootGroups root).2) := groupRoot_docOut _ _ hpre' hpara' htr
+  have hpw2 : Pointwise (fun g w => w.1 = g.1 ∧ paragraphWrap cfg ele none g.2 = some w.2
+      ∧ (items w.2).Perm (items g.2) ∧ (ele = none → items w.2 = items g.2)) (rootGroups root).1 ws := by
+    refine Pointwise.imp ?_ hpw
+    intro g w hgw
+    obtain ⟨_, _, _, _, _, _, _, _, _, _, h1, h2⟩ := C07_para_comments cfg ele g.2 w.2 hgw.2
+    exact ⟨hgw.1, hgw.2, h1, h2⟩
+  have hparas : paragraphs (.node .ROOT (docOut (sortBy ple ws) (rootGroups root).2))
+      = (sortBy ple ws).map (·.2) := by
+    rw [paragraphs_of_groups, hg]
+  have hct : topCommentTexts (.node .ROOT (docOut (sortBy ple ws) (rootGroups root).2))
+      = groupsComments (sortBy ple ws) (rootGroups root).2 := by
+    rw [topCommentTexts_eq, hg]
+  have hct0 : topCommentTexts root = groupsComments ws (rootGroups root).2 := by
+    rw [topCommentTexts_eq]
+    exact (groupsComments_congr _ ws _ (Pointwise.imp (fun _ _ h => h.1) hpw)).symm
+  refine ⟨ws, hpw2, (paragraphs_of_groups root).symm, rfl, hg, hparas, ?_, ?_, ?_⟩
+  · simp only [docItems, hparas, List.map_map]; rfl
+  · rw [hct, hct0]
+    exact groupsComments_perm _ _ _ (sortBy_perm ple ws)
+  · intro hle; subst hle
+    rw [hct, hct0]; rfl
+
+/-- the same without a per-paragraph callback: the paragraphs themselves, stably sorted -/
+theorem C07_doc_content_nowrap (ple : Option (DNode → DNode → Bool)) (root root' : DNode)
+    (h : deb822Wrap ple none root = some root') :
+    root' = .node .ROOT (docOut (sortBy ple (rootGroups root).1) (rootGroups root).2)
+      ∧ rootGroups root' = (sortBy ple (rootGroups root).1, (rootGroups root).2)
+      ∧ paragraphs root' = (sortBy ple (rootGroups root).1).map (·.2)
+      ∧ (paragraphs root').Perm (paragraphs root)
+      ∧ (ple = none → paragraphs root' = paragraphs root) := by
+  obtain ⟨ws, hpw, hpre, htr, rfl⟩ := deb822Wrap_spec ple none root root' h
+  have hws : ws = (rootGroups root).1 := by
+    have h1 := Pointwise.map_eq (fun g : List DNode × DNode => g) (fun w => w)
+      (fun g w (hgw : w.1 = g.1 ∧ applyW none g.2 = some w.2) => by
+        have h2 : g.2 = w.2 := by simpa [applyW] using hgw.2
+        exact Prod.ext hgw.1.symm h2) hpw
+    simpa using h1.symm
+  subst hws
+  have hpre' : ∀ w ∈ sortBy ple (rootGroups root).1, ∀ c ∈ w.1, isTrivTok c = true :=
+    fun w hw => hpre w ((mem_sortBy ple _ w).1 hw)
+  have hpara' : ∀ w ∈ sortBy ple (rootGroups root).1, isParaNode w.2 = true :=
+    fun w hw => groupRoot_paras _ _ w ((mem_sortBy ple _ w).1 hw)
+  have hg := groupRoot_docOut _ _ hpre' hpara' htr
+  have hparas : paragraphs (.node .ROOT (docOut (sortBy ple (rootGroups root).1) (rootGroups root).2))
+      = (sortBy ple (rootGroups root).1).map (·.2) := by
+    rw [paragraphs_of_groups]
+    exact congrArg (fun x => x.1.map (·.2)) hg
+  refine ⟨rfl, hg, hparas, ?_, ?_⟩
+  · rw [hparas, paragraphs_of_groups root]
+    exact List.Perm.map _ (sortBy_perm ple _)
+  · intro hle; subst hle
+    rw [hparas, paragraphs_of_groups root]; rfl
+
+example : ∃ r', deb822Wrap (some (rankOrder exPkgRank))
+      (some (paragraphWrap exCfg (some (rankOrder exKeyRank)) none)) exRoot = some r' := by
+  have h : (deb822Wrap none (some (paragraphWrap exCfg none none)) exRoot).isSome = true := by decide +kernel
+  obtain ⟨r0, hr0⟩ := Option.isSome_iff_exists.1 h
+  exact deb822Wrap_any_order exCfg none _ none _ none exRoot r0 hr0
+
+example : (deb822Wrap none (some (paragraphWrap exCfg none none)) exRoot).map Node.text
+    = some "# top\nPackage: b\nDepends:\n    x,\n    y\n# c\nArch: any\n\n# mid\nPackage: a\n".toList := by
+  decide +kernel
+
+/-- **paragraphs are separated by exactly one blank line**: the children of the result are the
+    paragraph groups (comment lines, paragraph, line terminator if the paragraph lacked one) joined
+    by single blank-line nodes `EMPTY_LINE["\n"]`, then the trailing comment lines; the result
+    contains no other blank-line node, i.e. exactly (number of paragraphs − 1) of them. Holds for any
+    per-paragraph callback that returns paragraphs. -/
+theorem C07_doc_separated (ple : Option (DNode → DNode → Bool)) (wp : Option (DNode → Option DNode))
+    (hwp : ∀ p p', isParaNode p = true → applyW wp p = some p' → isParaNode p' = true)
+    (root root' : DNode) (h : deb822Wrap ple wp root = some root') :
+    ∃ ws : List (List DNode × DNode),
+      root'.children = joinParas (ws.map docGroup) ++ commentLines (rootGroups root).2
+      ∧ paragraphs root' = ws.map (·.2)
+      ∧ root'.children.filter isEmptyLineKind
+          = List.replicate ((paragraphs root').length - 1) (.node .EMPTY_LINE [Node.tok .NEWLINE ['\n']])
+      ∧ (∀ w ∈ ws, (docGroup w).filter isEmptyLineKind = [])
+      -- every group ends with a line terminator (when its paragraph has any token at all)
+      ∧ (∀ w ∈ ws, leavesList [w.2] ≠ [] → ∃ t, (leavesList (w.2 :: termOf w.2)).getLast? = some t ∧ t.1 = .NEWLINE) := by
+  obtain ⟨ws, hpw, hpre, htr, rfl⟩ := deb822Wrap_spec ple wp root root' h
+  have hpre' : ∀ w ∈ sortBy ple ws, ∀ c ∈ w.1, isTrivTok c = true :=
+    fun w hw => hpre w ((mem_sortBy ple ws w).1 hw)
+  have hpara' : ∀ w ∈ sortBy ple ws, isParaNode w.2 = true := by
+    intro w hw
+    obtain ⟨g, hg, hr⟩ := Pointwise.mem_right hpw w ((mem_sortBy ple ws w).1 hw)
+    exact hwp g.2 w.2 (groupRoot_paras _ _ g hg) hr.2
+  have hg := groupRoot_docOut _ _ hpre' hpara' htr
+  have hparas : paragraphs (.node .ROOT (docOut (sortBy ple ws) (rootGroups root).2))
+      = (sortBy ple ws).map (·.2) := by
+    rw [paragraphs_of_groups]
+    exact congrArg (fun x => x.1.map (·.2)) hg
+  refine ⟨sortBy ple ws, rfl, hparas, ?_, ?_, ?_⟩
+  · rw [hparas, List.length_map]
+    exact filter_el_docOut _ _ hpre' hpara' htr
+  · intro w hw
+    exact filter_el_docGroup w (hpre' w hw) (hpara' w hw)
+  · intro w _ hne
+    cases hl : (leavesList [w.2]).getLast? with
+    | none => exact absurd (List.getLast?_eq_none_iff.1 hl) hne
+    | some t =>
+      by_cases ht : t.1 = .NEWLINE
+      · refine ⟨t, ?_, ht⟩
+        have : termOf w.2 = [] := by simp only [termOf, hl, ht]; rfl
+        rw [this]; exact hl
+      · refine ⟨(.NEWLINE, ['\n']), ?_, rfl⟩
+        have : termOf w.2 = [Node.tok .NEWLINE ['\n']] := by
+          simp only [termOf, hl]
+          have : (t.1 == Kind.NEWLINE) = false := by simp [ht]
+          simp [this]
+        rw [this]
+        simp
+
+
+/-- comment lines inside a value (COMMENT tokens among the children of the field) are kept, in
+    order, by the entry-level reformatting -/
+theorem C07_entry_comments (cfg : WrapCfg) (e e' : DNode) (h : entryWrap cfg none e = some e') :
+    commentTexts e'.children = commentTexts e.children := entryWrap_comments cfg e e' h
+
+/-- **requested order**: with a comparator that is a total preorder the fields of the result are
+    sorted (each field is `≤` every later one); same for the paragraphs of a document -/
+theorem C07_sorted_para (cfg : WrapCfg) (f : DNode → DNode → Bool) (hf : OrderOK (some f)) (p p' : DNode)
+    (h : paragraphWrap cfg (some f) none p = some p') :
+    (entries p').Pairwise (fun a b => f a b = true) := by
+  obtain ⟨ws, _, rfl, hg, _⟩ := C07_para_comments cfg (some f) p p' h
+  have h1 : entries (.node .PARAGRAPH (paraOut (sortBy (some f) ws) (paraGroups p).2))
+      = (sortBy (some f) ws).map (·.2) := by
+    have := groupBy_units (paraOut (sortBy (some f) ws) (paraGroups p).2) []
+    rw [show groupBy isEntryNode isTriviaNode (paraOut (sortBy (some f) ws) (paraGroups p).2) [] = _ from hg] at this
+    exact this.symm
+  rw [h1, List.pairwise_map]
+  obtain ⟨htrans, htot⟩ := hf f rfl
+  exact List.pairwise_mergeSort (le := fun a b => f a.2 b.2)
+    (fun a b c => htrans a.2 b.2 c.2) (fun a b => htot a.2 b.2) ws
+
+theorem C07_sorted_doc (cfg : WrapCfg) (ele : Option (DNode → DNode → Bool)) (f : DNode → DNode → Bool)
+    (hf : OrderOK (some f)) (root root' : DNode)
+    (h : deb822Wrap (some f) (some (paragraphWrap cfg ele none)) root = some root') :
+    (paragraphs root').Pairwise (fun a b => f a b = true) := by
+  obtain ⟨ws, _, _, _, _, hp, _⟩ := C07_doc_content cfg ele (some f) root root' h
+  rw [hp, List.pairwise_map]
+  obtain ⟨htrans, htot⟩ := hf f rfl
+  exact List.pairwise_mergeSort (le := fun a b => f a.2 b.2)
+    (fun a b c => htrans a.2 b.2 c.2) (fun a b => htot a.2 b.2) ws
+
+example : OrderOK (some (rankOrder exKeyRank)) := rankOrder_ok _
+
+/-! ### (d) idempotence -/
+
+/-- **entry level**: reformatting a reformatted field with the same settings returns it unchanged
+    (no formatter; every indentation, empty-first-line setting and width limit) -/
+theorem C07_idempotent_entry (cfg : WrapCfg) (e e' : DNode) (h : entryWrap cfg none e = some e') :
+    entryWrap cfg none e' = some e' := entryWrap_idem cfg e e' h
+
+example : (entryWrap exCfg none exEntry).map Node.text = some "Depends:\n    x,\n    y\n".toList := by
+  decide +kernel
+
+/-- **paragraph level**, for an entry comparator that is absent or a total preorder
+    (`OrderOK`: transitive and total) -/
+theorem C07_idempotent_para (cfg : WrapCfg) (le : Option (DNode → DNode → Bool)) (hle : OrderOK le)
+    (p p' : DNode) (h : paragraphWrap cfg le none p = some p') :
+    paragraphWrap cfg le none p' = some p' := paragraphWrap_idem cfg le hle p p' h
+
+example : OrderOK (some (rankOrder exKeyRank)) := rankOrder_ok _
+
+/-- **document level**, for comparators that are absent or total preorders: the second
+    application returns the same tree (hence the same text) -/
+theorem C07_idempotent_doc (cfg : WrapCfg) (ele ple : Option (DNode → DNode → Bool))
+    (hele : OrderOK ele) (hple : OrderOK ple) (root root' : DNode)
+    (h : deb822Wrap ple (some (paragraphWrap cfg ele none)) root = some root') :
+    deb822Wrap ple (some (paragraphWrap cfg ele none)) root' = some root' := by
+  refine deb822Wrap_idem ple hple _ ?_ ?_ root root' h
+  · intro p p' _ hp
+    obtain ⟨_, _, _, _, _, he⟩ := paragraphWrap_spec cfg ele none p p' hp
+    rw [he]; rfl
+  · intro p p' _ hp
+    exact paragraphWrap_idem cfg ele hele p p' hp
+
+/-- without a per-paragraph callback (sorting and blank-line normalisation only) -/
+theorem C07_idempotent_doc_nowrap (ple : Option (DNode → DNode → Bool)) (hple : OrderOK ple)
+    (root root' : DNode) (h : deb822Wrap ple none root = some root') :
+    deb822Wrap ple none root' = some root' := by
+  refine deb822Wrap_idem ple hple none ?_ ?_ root root' h
+  · intro p p' hp hpp
+    simp only [applyW, Option.some.injEq] at hpp
+    subst hpp; exact hp
+  · intro p p' _ hpp
+    simp only [applyW, Option.some.injEq] at hpp
+    subst hpp; rfl
+
+example : OrderOK (some (rankOrder exPkgRank)) ∧ OrderOK (some (rankOrder exKeyRank)) :=
+  ⟨rankOrder_ok _, rankOrder_ok _⟩
+
+
+/-! ### (c) strict re-read -/
+
+open Spec in
+/-- **strict re-read** (no formatter; every indentation of at least one column, empty-first-line
+    setting, width limit, entry and paragraph comparator). Take the tree `d.tree` of any well-formed
+    document `d` (`DocS.WF`; by C03 this is exactly what the parser returns for `d.str`). Then
+    * wrap-and-sort succeeds (no panic) and returns a tree `root'` with as many paragraphs as `d`;
+    * the printed result `root'.text` parses with no error, the strict reader accepts it, and what
+      it reads back — `docItems` of the re-read tree — is exactly `docItems root'`, the content the
+      returned object reports (computed in `C07_doc_content` / `C07_para_comments`);
+    * the printed result is the text of a well-formed document `d'` every line of which is
+      LF-terminated (`DocTermAll`), in which nothing but comment lines precedes the first paragraph, every paragraph except the last is followed by exactly
+      one blank line (then comment lines only) and the last one by nothing. -/
+theorem C07_reread (cfg : WrapCfg) (ele ple : Option (DNode → DNode → Bool)) (d : DocS)
+    (hwf : d.WF) (hc : IndentOK cfg) :
+    ∃ root' : DNode,
+      deb822Wrap ple (some (paragraphWrap cfg ele none)) d.tree = some root'
+      ∧ (paragraphs root').length = d.paras.length
+      ∧ (parse root'.text).errors = []
+      ∧ (∃ t, readStrict root'.text = .ok t ∧ docItems t = docItems root')
+      ∧ ∃ d' : DocS, d'.WF ∧ DocTermAll d' ∧ root'.text = d'.str ∧ parse root'.text = ⟨d'.tree, []⟩
+          ∧ (∃ cs, d'.lead = cGaps cs)
+          ∧ (∀ pg ∈ d'.paras, pg.2 = [] ∨ ∃ cs, pg.2 = Gap.blank :: cGaps cs) := by
+  obtain ⟨root', d', hres, hd', hterm, htext, _, hitems, hlen, hlead, hgaps⟩ :=
+    deb822Wrap_reread cfg ele ple d hwf hc
+  have hparse : parse root'.text = ⟨d'.tree, []⟩ := by
+    rw [htext]; unfold parse; rw [lex_doc d' hd', parse_doc d' hd']
+  refine ⟨root', hres, hlen, by rw [hparse], ⟨d'.tree, ?_, hitems⟩, d', hd', hterm, htext, hparse, hlead, hgaps⟩
+  simp [readStrict, hparse]
+
+open Spec in
+/-- the same, starting from the text: the strict reader's result for a well-formed document -/
+theorem C07_reread_text (cfg : WrapCfg) (ele ple : Option (DNode → DNode → Bool)) (d : DocS)
+    (hwf : d.WF) (hc : IndentOK cfg) :
+    ∃ root root' : DNode, readStrict d.str = .ok root
+      ∧ deb822Wrap ple (some (paragraphWrap cfg ele none)) root = some root'
+      ∧ ∃ t, readStrict root'.text = .ok t ∧ docItems t = docItems root' := by
+  obtain ⟨root', hres, _, _, ht, _⟩ := C07_reread cfg ele ple d hwf hc
+  have hparse : parse d.str = ⟨d.tree, []⟩ := by unfold parse; rw [lex_doc d hwf, parse_doc d hwf]
+  exact ⟨d.tree, root', by simp [readStrict, hparse], hres, ht⟩
+
+/-- a well-formed document with a comment between fields, a multi-line value whose first line is
+    on the line of the field name, several blank lines between paragraphs, no final newline -/
+def exDocS : Spec.DocS :=
+  { lead := [.comment " top".toList true, .blank],
+    paras := [
+      ({ first := { key := "Package".toList, ws := [' '], v := "b".toList, nl := true, conts := [] },
+         rest := [.entry { key := "Depends".toList, ws := [' '], v := "x,".toList, nl := true,
+                           conts := [{ indent := "  ".toList, text := "y".toList, nl := true }] },
+                  .comment " c".toList true,
+                  .entry { key := "Arch".toList, ws := [' '], v := "any".toList, nl := true, conts := [] }] },
+       [.blank, .blank, .comment " mid".toList true]),
+      ({ first := { key := "Package".toList, ws := [' '], v := "a".toList, nl := false, conts := [] },
+         rest := [] }, [])] }
+
+example : exDocS.WF ∧ IndentOK exCfg := ⟨by decide, by simp [IndentOK, exCfg]⟩
+example : exDocS.str = "# top\n\nPackage: b\nDepends: x,\n  y\n# c\nArch: any\n\n\n# mid\nPackage: a".toList := by
+  decide
+
 
 end Deb822Verif.Props.C07
